@@ -292,7 +292,7 @@ theorem sim_nodes (ca cb : XCfg) (hrel : CfgRel ca cb) : ∀ f : Nat,
             (by rw [oa3]; simp [rA]) (by rw [ob3]; simp [rB])
             (by rw [ica3, icb3, h2.ic]) (by rw [cda3, cdb3, h2.cd]) (by rw [cta3, ctb3, h2.ct])
         -- children, end tag
-        refine SimR.bind (ihL (.elt name) kids _ _ _ hn h3) ?_
+        refine SimR.bind (ihL (childScope parent name) kids _ _ _ hn h3) ?_
         intro sa4 sb4 ch4 h4
         cases hk : kids.isEmpty with
         | true =>
@@ -328,7 +328,7 @@ theorem sim_nodes (ca cb : XCfg) (hrel : CfgRel ca cb) : ∀ f : Nat,
             { sa with inCdata := true, out := sa.out ++ b!"<![CDATA[" }
             { sb with inCdata := true, out := sb.out ++ b!"<![CDATA[" } :=
           h.step _ (by intro a b hm; simp at hm) _ _ (by simp [rA]) (by simp [rB]) h.ic rfl h.ct
-        refine SimR.bind (ihL .other kids _ _ _ hn h1) ?_
+        refine SimR.bind (ihL parent kids _ _ _ hn h1) ?_
         intro sa2 sb2 ch2 h2
         exact ⟨_, h2.step [.mk b!"]]>"] (by intro a b hm; simp at hm)
           { sa2 with inCdata := false, out := sa2.out ++ b!"]]>", curTag := none }
